@@ -13,6 +13,9 @@ let () =
   register "c01_verify" (function [p; a; b; n; g; r; s; q; z] ->
       of_result (fun x -> VBool x)
         (Model.c01_verify (vi p) (vi a) (vi b) (vi n) (vpoint g) (vi r) (vi s) (vpoint q) (vi z)) | _ -> raise (Bad "arity"));
+  register "c01_sign_then_verify" (function [p; a; b; n; g; draws; key; z] ->
+      of_result (fun x -> VBool x)
+        (Model.c01_sign_then_verify (vi p) (vi a) (vi b) (vi n) (vpoint g) (vzlist draws) (vi key) (vi z)) | _ -> raise (Bad "arity"));
   register "c01_der_encode_sig" (function [r; s] ->
       of_result (fun x -> VB x) (Model.c01_der_encode_sig (vi r) (vi s)) | _ -> raise (Bad "arity"));
   register "c01_der_decode_sig" (function [d] ->
